@@ -126,6 +126,40 @@ def build_indelmap(s, ctor, desc):
     raise ValueError(ctor)
 
 
+def build_indelmap_container(s, ctor, container, desc):
+    """A real IndelMap for string s: constructor `ctor`, its argument handed over in `container`."""
+    from cogent3.core.location import IndelMap, gap_coords_to_map
+
+    if ctor == "segments":
+        locs = [tuple(x) for x in desc["res_align"]]
+        arg = {
+            "list": lambda: locs,
+            "tuple": lambda: tuple(locs),
+            "generator": lambda: (x for x in locs),
+            "iter": lambda: iter(locs),
+            "array": lambda: numpy.array(locs, dtype=int).reshape((-1, 2)),
+            "list_of_lists": lambda: [list(x) for x in locs],
+        }[container]()
+        return IndelMap.from_aligned_segments(locations=arg, aligned_length=desc["len"])
+    if ctor == "spans":
+        spans = rle_forward(desc["entries"])
+        return IndelMap.from_spans(spans=spans if container == "list" else tuple(spans), parent_length=desc["plen"])
+    if ctor == "gapdict":
+        if container == "dict":
+            d = {int(p): int(l) for p, l in desc["gap_coords"]}
+        else:
+            d = {numpy.int64(p): numpy.int64(l) for p, l in desc["gap_coords"]}
+        return gap_coords_to_map(d, desc["plen"])
+    if ctor == "arrays":
+        if container == "gap_lengths":
+            return IndelMap(gap_pos=numpy.array(desc["gap_pos"], dtype=I32), gap_lengths=numpy.array([l for _, l in desc["gap_coords"]], dtype=I32), parent_length=desc["plen"])
+        dt = numpy.int32 if container == "int32" else numpy.int64
+        return IndelMap(gap_pos=numpy.array(desc["gap_pos"], dtype=dt), cum_gap_lengths=numpy.array(desc["cum"], dtype=dt), parent_length=desc["plen"])
+    if ctor == "parse":
+        return build_indelmap(s, "parse", desc)
+    raise ValueError((ctor, container))
+
+
 def im_repr(m):
     """The representation the property names: gap_pos, cum_gap_lengths, parent_length, len."""
     return {
@@ -348,6 +382,36 @@ def build_featuremap(mdef, ctor):
             return None
         return FeatureMap.from_locations(locations=[(s, e) for s, e, _ in spans], parent_length=P)
     raise ValueError(ctor)
+
+
+def build_featuremap_container(mdef, container):
+    """A real FeatureMap for the spec map, its spans / locations handed over in `container`."""
+    from cogent3.core.location import FeatureMap
+
+    spans, P = mdef["spans"], mdef["plen"]
+    L = real_spans(spans)
+    if container == "list":
+        return FeatureMap(spans=L, parent_length=P)
+    if container == "tuple":
+        return FeatureMap(spans=tuple(L), parent_length=P)
+    if container == "generator":
+        return FeatureMap(spans=(x for x in L), parent_length=P)
+    if container == "iter":
+        return FeatureMap(spans=iter(L), parent_length=P)
+    if container == "map_spans":  # the generator property of another map, passed straight through
+        return FeatureMap(spans=FeatureMap(spans=L, parent_length=P).spans, parent_length=P)
+    if container == "from_spans_list":
+        return FeatureMap.from_spans(spans=L, parent_length=P)
+    if container == "from_spans_map_spans":
+        return FeatureMap.from_spans(spans=FeatureMap(spans=L, parent_length=P).spans, parent_length=P)
+    locs = [(s, e) for s, e, _ in spans]
+    if container == "locations_list":
+        return FeatureMap.from_locations(locations=locs, parent_length=P)
+    if container == "locations_tuple":
+        return FeatureMap.from_locations(locations=tuple(locs), parent_length=P)
+    if container == "locations_array":
+        return FeatureMap.from_locations(locations=numpy.array(locs, dtype=int).reshape((-1, 2)), parent_length=P)
+    raise ValueError(container)
 
 
 def fm_snapshot(m):
